@@ -684,10 +684,11 @@ fn main() {
     let rand_rounds = ctx.scale(2, 12, 80);
     let rand_execs = ctx.scale(1, 150, 400);
     for round in 0..rand_rounds {
+        let go2 = ctx.time_frac_used() < 0.45;
         for &(t, w) in &[(2usize, 4usize), (3, 4), (4, 3), (3, 8)] {
             let (t, w) = if small { (t.min(3), w.min(3)) } else { (t, w) };
             let placement = round % 4;
-            ctx.case("AtomicBitFieldVec", &format!("random-sched/{}t{}w", t, w), "set_atomic", |c| {
+            ctx.case_if(go2, "AtomicBitFieldVec", &format!("random-sched/{}t{}w", t, w), "set_atomic", |c| {
                 let sc = gen_field_scenario(c.rng(), t, w, placement);
                 let mut srng = SmallRng::seed_from_u64(c.seed ^ 0x5eed);
                 for _ in 0..rand_execs {
@@ -712,7 +713,7 @@ fn main() {
                 c.set_cell(format!("field-rand|{}t{}w|{}|w{}", t, w, sc.placement, sc.width));
                 c.describe(|| format!("{:?}", sc));
             });
-            ctx.case("AtomicBitVec", &format!("random-sched/{}t{}w", t, w), "set_swap", |c| {
+            ctx.case_if(go2, "AtomicBitVec", &format!("random-sched/{}t{}w", t, w), "set_swap", |c| {
                 let sc = gen_bit_scenario(c.rng(), t, w.min(6), 1 + round % 3);
                 let mut srng = SmallRng::seed_from_u64(c.seed ^ 0x5eed);
                 for _ in 0..rand_execs {
@@ -741,7 +742,7 @@ fn main() {
         }
         for (n, t) in [(7usize, 2usize), (12, 3), (20, 4)] {
             let (n, t) = if small { (n.min(8), t.min(3)) } else { (n, t) };
-            ctx.case("EliasFanoConcurrentBuilder", &format!("random-sched/n{}t{}", n, t), "set", |c| {
+            ctx.case_if(go2, "EliasFanoConcurrentBuilder", &format!("random-sched/n{}t{}", n, t), "set", |c| {
                 let sc = gen_ef_scenario(c.rng(), n, t, round % 3);
                 let mut srng = SmallRng::seed_from_u64(c.seed ^ 0x5eed);
                 for _ in 0..rand_execs.min(60) {
@@ -767,9 +768,6 @@ fn main() {
                 c.describe(|| format!("{:?}", sc));
             });
         }
-        if ctx.out_of_time() {
-            break;
-        }
     }
 
     // ---------------- 3. native stress: real parallelism, hook as delay injector ----------
@@ -792,8 +790,9 @@ fn main() {
         let stress_rounds = ctx.scale(0, 6, 40);
         let reps = ctx.scale(0, 300, 1500);
         for round in 0..stress_rounds {
+            let go3 = ctx.time_frac_used() < 0.7;
             for t in [2usize, 4, 8, 16] {
-                ctx.case("AtomicBitFieldVec", &format!("stress/{}t", t), "set_atomic", |c| {
+                ctx.case_if(go3, "AtomicBitFieldVec", &format!("stress/{}t", t), "set_atomic", |c| {
                     let sc = gen_field_scenario(c.rng(), t, 6, round % 4);
                     for _ in 0..reps {
                         let a = build_field_vec(&sc);
@@ -812,7 +811,7 @@ fn main() {
                     c.set_cell(format!("field-stress|{}t|{}|w{}", t, sc.placement, sc.width));
                     c.describe(|| format!("{:?}", sc));
                 });
-                ctx.case("AtomicBitVec", &format!("stress/{}t", t), "set_swap", |c| {
+                ctx.case_if(go3, "AtomicBitVec", &format!("stress/{}t", t), "set_swap", |c| {
                     let sc = gen_bit_scenario(c.rng(), t, 3, 2);
                     for _ in 0..reps {
                         let a = build_bit_vec(&sc);
@@ -832,7 +831,7 @@ fn main() {
                     c.set_cell(format!("bit-stress|{}t", t));
                     c.describe(|| format!("{:?}", sc));
                 });
-                ctx.case("EliasFanoConcurrentBuilder", &format!("stress/{}t", t), "set", |c| {
+                ctx.case_if(go3, "EliasFanoConcurrentBuilder", &format!("stress/{}t", t), "set", |c| {
                     let n = 200 + c.rng().random_range(0..300);
                     let sc = gen_ef_scenario(c.rng(), n, t, round % 3);
                     for _ in 0..(reps / 10).max(1) {
@@ -863,11 +862,171 @@ fn main() {
                     c.describe(|| format!("n={} u={} partition={}", n, sc.u, sc.partition));
                 });
             }
-            if ctx.out_of_time() {
-                break;
-            }
         }
         sux::verif::set_sched_hook(None);
+
+        // ---------------- 4. storms: tight contention without any hook ----------
+        // A change may add memory accesses that have no scheduling point (e.g. a
+        // preliminary load before a read-modify-write): only real parallelism (or
+        // Miri) can interleave those. Invariants checked here hold for every
+        // sequential order, so they can never raise a false alarm.
+        let storm_rounds = ctx.scale(0, 4, 20);
+        let storm_ops = ctx.scale(0, 30_000, 200_000);
+        for round in 0..storm_rounds {
+            for t in [2usize, 3, 4, 8] {
+                ctx.case("AtomicBitVec", &format!("storm/swap/{}t", t), "swap", |c| {
+                    let nbits = 1 + (round % 3) * 3; // 1, 4 or 7 shared bits of one word
+                    let len = 70;
+                    let init: Vec<bool> = (0..len).map(|_| c.rng().random_bool(0.5)).collect();
+                    let b: BitVec = init.iter().copied().collect();
+                    let a: AtomicBitVec = b.into();
+                    let seeds: Vec<u64> = (0..t).map(|_| c.rng().random()).collect();
+                    let start = std::sync::Barrier::new(t);
+                    let res: Vec<(Vec<i64>, Vec<i64>)> = std::thread::scope(|s| {
+                        let hs: Vec<_> = (0..t)
+                            .map(|k| {
+                                let (a, start, seed) = (&a, &start, seeds[k]);
+                                s.spawn(move || {
+                                    let mut rng = SmallRng::seed_from_u64(seed);
+                                    let mut up = vec![0i64; nbits];
+                                    let mut down = vec![0i64; nbits];
+                                    start.wait();
+                                    for _ in 0..storm_ops {
+                                        let r: u32 = rng.random();
+                                        let i = (r as usize >> 1) % nbits;
+                                        let v = r & 1 == 1;
+                                        let old = a.swap(i, v, Ordering::Relaxed);
+                                        if v && !old {
+                                            up[i] += 1;
+                                        }
+                                        if !v && old {
+                                            down[i] += 1;
+                                        }
+                                    }
+                                    (up, down)
+                                })
+                            })
+                            .collect();
+                        hs.into_iter().map(|h| h.join().unwrap()).collect()
+                    });
+                    for i in 0..nbits {
+                        let ups: i64 = res.iter().map(|r| r.0[i]).sum();
+                        let downs: i64 = res.iter().map(|r| r.1[i]).sum();
+                        let fin = a.get(i, Ordering::SeqCst) as i64;
+                        c.check("swap", init[i] as i64 + ups - downs == fin, || {
+                            format!("shared bit {}: initial {}, {} swaps reported false->true, {} reported true->false, final {}: no sequential order of the calls explains the returned values ({} threads x {} swaps on {} bits)", i, init[i], ups, downs, fin != 0, t, storm_ops, nbits)
+                        });
+                    }
+                    for i in nbits..len {
+                        c.check("swap", a.get(i, Ordering::SeqCst) == init[i], || format!("bystander bit {} changed", i));
+                    }
+                    c.tick((t * storm_ops) as u64);
+                    c.nontrivial();
+                    c.set_cell(format!("bit-storm-swap|{}t|{}bits", t, nbits));
+                    c.describe(|| format!("{} threads x {} pseudo-random swaps on bits 0..{} of a {}-bit vector", t, storm_ops, nbits, len));
+                });
+                ctx.case("AtomicBitVec", &format!("storm/set/{}t", t), "set", |c| {
+                    // every thread owns one bit of the same word and toggles it
+                    let len = 64 + 9;
+                    let init: Vec<bool> = (0..len).map(|_| c.rng().random_bool(0.5)).collect();
+                    let b: BitVec = init.iter().copied().collect();
+                    let a: AtomicBitVec = b.into();
+                    let mut owned: Vec<usize> = (0..64).collect();
+                    shuffle(c.rng(), &mut owned);
+                    owned.truncate(t);
+                    let start = std::sync::Barrier::new(t);
+                    let bad: Vec<Option<String>> = std::thread::scope(|s| {
+                        let hs: Vec<_> = (0..t)
+                            .map(|k| {
+                                let (a, start, i, init) = (&a, &start, owned[k], init[owned[k]]);
+                                s.spawn(move || {
+                                    let mut cur = init;
+                                    start.wait();
+                                    for n in 0..storm_ops {
+                                        if a.get(i, Ordering::Relaxed) != cur {
+                                            return Some(format!("thread {} wrote {} to its own bit {} but read back {} (op {})", k, cur, i, !cur, n));
+                                        }
+                                        cur = !cur;
+                                        a.set(i, cur, Ordering::Relaxed);
+                                    }
+                                    if a.get(i, Ordering::Relaxed) != cur {
+                                        return Some(format!("thread {} lost its last write to bit {}", k, i));
+                                    }
+                                    None
+                                })
+                            })
+                            .collect();
+                        hs.into_iter().map(|h| h.join().unwrap()).collect()
+                    });
+                    for e in bad.into_iter().flatten() {
+                        c.fail("set", "stress", "", &format!("{}; owned bits {:?}", e, owned));
+                    }
+                    for i in 0..len {
+                        if !owned.contains(&i) {
+                            c.check("set", a.get(i, Ordering::SeqCst) == init[i], || format!("bystander bit {} changed; owned bits {:?}", i, owned));
+                        }
+                    }
+                    c.tick((t * storm_ops) as u64);
+                    c.nontrivial();
+                    c.set_cell(format!("bit-storm-set|{}t", t));
+                    c.describe(|| format!("{} threads each toggling its own bit {:?} {} times", t, owned, storm_ops));
+                });
+                ctx.case("AtomicBitFieldVec", &format!("storm/set_atomic/{}t", t), "set_atomic", |c| {
+                    // every thread owns one field; fields share words (and straddle for odd widths)
+                    let width = [3usize, 7, 8, 13, 21][round % 5];
+                    let len = t + 200 / width;
+                    let m = mask(width);
+                    let init: Vec<usize> = (0..len).map(|_| c.rng().random::<u64>() as usize & m).collect();
+                    let mut bfv = BitFieldVec::<usize>::new(width, len);
+                    for (i, &v) in init.iter().enumerate() {
+                        bfv.set(i, v);
+                    }
+                    let a: AtomicBitFieldVec<usize> = bfv.into();
+                    let first = c.rng().random_range(0..=(len - t));
+                    let owned: Vec<usize> = (first..first + t).collect();
+                    let start = std::sync::Barrier::new(t);
+                    let ops = storm_ops / 2;
+                    let bad: Vec<Option<String>> = std::thread::scope(|s| {
+                        let hs: Vec<_> = (0..t)
+                            .map(|k| {
+                                let (a, start, i, init) = (&a, &start, owned[k], init[owned[k]]);
+                                s.spawn(move || {
+                                    let mut cur = init;
+                                    start.wait();
+                                    for n in 0..ops {
+                                        let got = a.get_atomic(i, Ordering::Relaxed);
+                                        if got != cur {
+                                            return Some(format!("thread {} wrote {:#x} to its own element {} but read back {:#x} (op {})", k, cur, i, got, n));
+                                        }
+                                        cur = cur.wrapping_mul(31).wrapping_add(n + 7) & m;
+                                        a.set_atomic(i, cur, Ordering::Relaxed);
+                                    }
+                                    let got = a.get_atomic(i, Ordering::Relaxed);
+                                    if got != cur {
+                                        return Some(format!("thread {} lost its last write to element {}: {:#x} instead of {:#x}", k, i, got, cur));
+                                    }
+                                    None
+                                })
+                            })
+                            .collect();
+                        hs.into_iter().map(|h| h.join().unwrap()).collect()
+                    });
+                    for e in bad.into_iter().flatten() {
+                        c.fail("set_atomic", "stress", "", &format!("{}; width {} owned elements {:?}", e, width, owned));
+                    }
+                    for i in 0..len {
+                        if !owned.contains(&i) {
+                            let got = a.get_atomic(i, Ordering::SeqCst);
+                            c.check("set_atomic", got == init[i], || format!("bystander element {} changed from {:#x} to {:#x}; width {} owned {:?}", i, init[i], got, width, owned));
+                        }
+                    }
+                    c.tick((t * ops) as u64);
+                    c.nontrivial();
+                    c.set_cell(format!("field-storm|{}t|w{}", t, width));
+                    c.describe(|| format!("{} threads each rewriting its own element {:?} (width {}) {} times", t, owned, width, ops));
+                });
+            }
+        }
     }
 
     // evidence extras
